@@ -285,6 +285,30 @@ fn forced_mutants(b: &Base) -> Vec<Vec<u8>> {
             }
             out.push(m);
         }
+        // (c) VALID CRC-8 over an altered header (frame 0 only): every other value of the two tag bytes (block-size /
+        // sample-rate codes, channel assignment / sample-size codes / reserved bit), the CRC-8 recomputed and stored
+        // where the ALTERED header ends (its length follows the new extra-byte codes). The header check then passes,
+        // so reserved codes and inconsistent tags reach the code behind it; the CRC-16 no longer matches.
+        if i == 0 {
+            let extra = |b2: u8| -> usize {
+                (match b2 >> 4 { 6 => 1, 7 => 2, _ => 0 }) + (match b2 & 0x0F { 12 => 1, 13 | 14 => 2, _ => 0 })
+            };
+            for off in [2usize, 3] {
+                for v in 0..=255u8 {
+                    if v == bytes[start + off] {
+                        continue;
+                    }
+                    let mut m = bytes.clone();
+                    m[start + off] = v;
+                    let hl = hlen + extra(m[start + 2]) - extra(bytes[start + 2]);
+                    if hl < 6 || start + hl > m.len() {
+                        continue;
+                    }
+                    m[start + hl - 1] = crc8_flac(&m[start..start + hl - 1]);
+                    out.push(m);
+                }
+            }
+        }
         start = end;
     }
     out
@@ -369,7 +393,7 @@ pub fn generate(seed: u64, nbases: usize, burst_stride: usize, nrandom: usize, o
         out(format!("{head} stride={burst_stride} flips={flips} bursts={bursts} truncs={truncs} o_c15={o15} o_c16={o16}"));
     }
     // (3b) directed mutants (explicit byte strings): forced check sums
-    for b in bs.iter().take(8) {
+    for b in bs.iter().take(6) {
         let info = (b.pcm.rate, b.pcm.channels, b.pcm.bps);
         let ms = forced_mutants(b);
         if ms.is_empty() {
